@@ -912,14 +912,14 @@ def sim_phase(ctx: Ctx, loop: steploop.StepLoop) -> None:
          ("AlphaUpgrade", "BehFast", 4, 0, False, 0, 0, 100),
          ("AlphaBody", "BehBody", 3, 1, True, 1, 0, 90),
          ("AlphaPoison", "BehFast", 3, 99, False, 1, 0, 40)],
-        [("AlphaPipe", "BehAll", 3, 0, False, 1, 1, 700),
-         ("AlphaPipe", "BehAll", 4, 1, True, 1, 1, 700),
-         ("AlphaHostile", "BehFast", 4, 0, True, 1, 1, 700),
-         ("AlphaUpgrade", "BehFast", 4, 0, False, 1, 0, 600),
-         ("AlphaBody", "BehBody", 3, 1, True, 1, 1, 600),
-         ("AlphaBody", "BehBody", 4, 0, False, 1, 0, 500),
-         ("AlphaQueue", "BehQueue", 4, 99, False, 1, 1, 400),
-         ("AlphaPoison", "BehFast", 3, 0, False, 1, 0, 500)])
+        [("AlphaPipe", "BehAll", 3, 0, False, 1, 1, 350),
+         ("AlphaPipe", "BehAll", 4, 1, True, 1, 1, 350),
+         ("AlphaHostile", "BehFast", 4, 0, True, 1, 1, 350),
+         ("AlphaUpgrade", "BehFast", 4, 0, False, 1, 1, 300),
+         ("AlphaBody", "BehBody", 3, 1, True, 1, 1, 300),
+         ("AlphaBody", "BehBody", 4, 0, False, 1, 0, 250),
+         ("AlphaQueue", "BehQueue", 4, 99, False, 1, 1, 250),
+         ("AlphaPoison", "BehFast", 3, 0, False, 1, 0, 250)])
     design = ctx.extra["code_design"]
     ideal = design_is_ideal(design)
     traces: List[dict] = []
@@ -961,7 +961,7 @@ def run(ctx: Ctx) -> None:
     ctx.log(f"hostile-target handling of the code under test: {ctx.extra['code_design']}")
     model_phase(ctx)
     sim_phase(ctx, loop)
-    n = ctx.pick(800, 8000)
+    n = ctx.pick(800, 5000)
     batch: List[dict] = []
     for _ in range(n):
         batch.append(random_exec(ctx, loop, ctx.rng))
